@@ -330,6 +330,21 @@ class BaseServer:
             headers += [('Access-Control-Allow-Credentials', 'true')]
         return headers
 
+    def _accepted_encodings(self, environ):
+        """Return the content codings offered in Accept-Encoding, leaving
+        out those that the client excluded with q=0."""
+        encodings = []
+        for e in environ.get('HTTP_ACCEPT_ENCODING', '').split(','):
+            params = [p.strip() for p in e.split(';')]
+            q = [p[2:] for p in params[1:] if p.lower().startswith('q=')]
+            try:
+                if q and float(q[0]) == 0:
+                    continue
+            except ValueError:
+                pass
+            encodings.append(params[0])
+        return encodings
+
     def _gzip(self, response):
         """Apply gzip compression to a response."""
         bytesio = io.BytesIO()
